@@ -304,6 +304,7 @@ FossilChecks(r, p, g, n) ==
      <<n <= Len(hist[p]), "C13", "released more than the history holds">>,
      <<g <= gvtSeen[r], "C04", "fossil collection used a value above the GVT told to this thread">>,
      <<\A i \in 1..n : hist[p][i].k = "e" => hist[p][i].t < g, "C03", "released an event that is not below the GVT">>,
+     <<\A i \in 1..n : hist[p][i].k = "e" => hist[p][i].t < g, "C13", "reclaimed history at or above the GVT: a rollback to the committed frontier is no longer possible">>,
      \* the kept history starts exactly at a kept checkpoint
      <<\E i \in 1..Len(ckpt[p]) : ckpt[p][i].ref = n, "C13", "kept history does not start at a kept checkpoint">>,
      <<~rb[r].on, "C13", "fossil collection inside a rollback">> >>
